@@ -222,6 +222,7 @@ def run(ctx):
 
     json_recursion(ctx, with_budget=True)
     canon_guard_semantics(ctx, scope)
+    name_index_rule(ctx, scope)
 
     # ---- Debug rendering is depth-limited
     dbg = [b for b in scope if fn_label(b) == '<schema::self_referential::SchemaNode as core::fmt::Debug>::fmt']
@@ -396,6 +397,58 @@ def _switch_edges(g, bb):
     if not t0:
         return None
     return t['otherwise'], t0[0]
+
+
+STRING_MUTATORS = ('String::remove', 'String::drain', 'String::insert', 'String::insert_str', 'String::truncate', 'String::replace_range',
+                   'String::push', 'String::push_str', 'String::pop', 'String::clear', 'String::retain')
+
+
+def name_index_rule(ctx, scope):
+    """`Name` stores a byte index into the string it stores (name() / namespace() slice with it, unchecked).  Where a Name
+    is built, the index kept is one computed on the string *as stored*: any path that edits the string after looking for
+    the dot must drop the index (store None) - otherwise name() slices out of bounds / off a char boundary (panic)"""
+    f = ctx.f
+    n = 0
+    for b in scope:
+        aggs = []
+        for bb in sorted(b.live_blocks()):
+            if b.is_cleanup(bb):
+                continue
+            for s_ in b.stmts(bb):
+                if 'assign' in s_ and s_['rv']['k'] == 'agg' and s_['rv'].get('adt') == 'schema::Name' and 'namespace_delimiter_idx' in (s_['rv'].get('fields') or []):
+                    aggs.append((bb, s_))
+        if not aggs:
+            continue
+        n += 1
+        ctx.touched(b)
+        ok = True
+        why = []
+        for abb, s_ in aggs:
+            fl = s_['rv']['fields']
+            sop = s_['rv']['ops'][fl.index('fully_qualified_name')]
+            iop = s_['rv']['ops'][fl.index('namespace_delimiter_idx')]
+            io = origin(b, iop)
+            finds = [c for c in io.calls if strip_generics(cname(c)).endswith(('str>::rfind', 'str>::find', 'str::rfind', 'str::find'))]
+            il = op_place(iop)
+            muts = [(mb, mt) for mb, mt in b.calls() if strip_generics(cname(mt)).endswith(STRING_MUTATORS) and abb in b.reachable_from(mb)]
+            for mb, mt in muts:
+                # after this edit, on the way to the aggregate, the index local is overwritten with None
+                resets = []
+                for xb in b.reachable_from(b.term(mb)['target']):
+                    for st in b.stmts(xb):
+                        if 'assign' in st and il is not None and st['assign'].get('l') == il['l'] and not st['assign'].get('p') and st['rv']['k'] == 'agg' and \
+                                st['rv'].get('adt') == 'core::option::Option' and st['rv'].get('variant') == 'None':
+                            resets.append(xb)
+                good = bool(resets) and must_pass(b, b.term(mb)['target'], [abb], resets)
+                if not good:
+                    ok = False
+                    why.append('%s edits the string but the index computed before survives' % strip_generics(cname(mt)).rsplit('::', 1)[1])
+            if not finds and not io.consts() and not any(a[0] == 'agg' for a in io.atoms):
+                ok = False
+                why.append('index of unknown provenance')
+        ctx.ob('PANIC', 'name-index/%s' % short_fn(fn_label(b)), ok, short_loc(b.span),
+               'the delimiter index stored in Name is an index into the stored string: %s' % ('; '.join(why) if why else 'no edit of the string outlives the index'))
+    ctx.floor('PANIC', 'functions building a Name with an index', n, 1)
 
 
 def canon_guard_semantics(ctx, scope):
